@@ -74,6 +74,30 @@ pub fn check(em: &Emitted, all_subranges: bool) -> (Vec<(String, String)>, u64) 
             }
         }
     }
+    // hover and go-to-definition agree on the owner: where hover prints `Owner::name`, the declaration that
+    // go-to-definition lands on lies in the body of the class or named def `Owner` (no expected value needed)
+    for occ in em.occs.iter() {
+        let Some(fid) = ids[occ.file] else { continue };
+        let pos = FilePosition::new(fid, TextSize::from(occ.range.0 as u32));
+        let (Some(h), Some(target)) = (a.hover(pos), a.goto_definition(pos)) else { continue };
+        let Some((owner_part, _)) = h.signature.split_once("::") else { continue };
+        let owner = owner_part.rsplit(|c: char| !(c.is_alphanumeric() || c == '_')).next().unwrap_or("");
+        let Some(tfile) = em.files.iter().zip(ids.iter()).find(|(_, id)| **id == Some(target.file)).map(|(f, _)| f) else { continue };
+        let parse = syntax::parse(&tfile.text);
+        let Some(tok) = parse.syntax_node().token_at_offset(target.range.start()).right_biased() else { continue };
+        let enclosing = tok.parent_ancestors().find(|n| matches!(n.kind(), syntax::syntax_kind::SyntaxKind::Class | syntax::syntax_kind::SyntaxKind::Def));
+        let Some(node) = enclosing else { continue };
+        let text = node.text().to_string();
+        let mut words = text.split(|c: char| !(c.is_alphanumeric() || c == '_')).filter(|w| !w.is_empty());
+        let kw = words.next().unwrap_or("");
+        let name = words.next().unwrap_or("");
+        // (an anonymous def, a pasted name or a def inside a multiclass has no plain name to compare)
+        let plain = (kw == "class" || kw == "def") && text[kw.len()..].trim_start().starts_with(name) && !name.is_empty() && !text[kw.len()..].trim_start()[name.len()..].trim_start().starts_with('#');
+        checked += 1;
+        if plain && !owner.is_empty() && owner != name && !name.starts_with('_') {
+            push("hover-owner", format!("{}: hover shows {:?}, but go-to-definition lands in the body of `{kw} {name}`", line_of(em, occ.file, occ.range.0), h.signature));
+        }
+    }
     // inlay hints
     for (i, f) in em.files.iter().enumerate() {
         let Some(fid) = ids[i] else { continue };
@@ -179,7 +203,7 @@ impl Engine for C19 {
 
     fn assumptions(&self) -> Vec<String> {
         vec![
-            "hover must name the symbol, contain the kind keyword for class/def/multiclass/defm and the declared type for template arguments, fields and defsets; inferred types of variables are not judged".into(),
+            "where hover prints `Owner::name`, go-to-definition lands in the body of the class or plainly named def `Owner`; hover must name the symbol, contain the kind keyword for class/def/multiclass/defm and the declared type for template arguments, fields and defsets; inferred types of variables are not judged".into(),
             "a hint is inside a range when start <= position <= end".into(),
         ]
     }
